@@ -8,18 +8,35 @@
 // C04). Every sequence is run with both endings on the same DB: first on a batch that is closed
 // without commit (DB must be unchanged), then on a second indexed batch that is committed (DB must
 // equal the overlay).
+//
+// Oracle sources: batch.go (type Batch "Indexing": every batch entry is newer than any DB entry,
+// only the latest operation on a key is visible; Batch.NewIter: "observes all of the Batch's
+// existing mutations, but no later mutations. Its view can be refreshed by calling SetOptions";
+// ErrNotIndexed), iterator.go (SetOptions: "the iterator's view of the mutable batch is refreshed";
+// CloneOptions.RefreshBatchView). No oracle correction was needed: the unchanged tree agrees on
+// every case, including the exact interleaved positions of points and range-key start boundaries.
+//
+// Long-lived iterator schedule (fixed, not enumerated), t = number of batch ops applied:
+//
+//	discard pass: S0 (points+ranges, opened at t=0, never refreshed; at every t also a Clone{} and a
+//	              Clone{RefreshBatchView} of it; refreshed by SetOptions at the very end) and
+//	              R (points+ranges, opened at t=0, SetOptions after every op);
+//	commit pass:  Rp (points only, opened at t=0, SetOptions after every op) and K (points+ranges,
+//	              opened at t=1, replaced at t=3 by its Clone{RefreshBatchView}, parent closed).
+//
+// Environment knobs for experiments only: C05_BALLAST_MB, C05_GOGC.
 package c05
 
 import (
 	"context"
 	"errors"
 	"fmt"
-	"regexp"
 	"os"
+	"regexp"
 	"runtime"
 	"runtime/debug"
-	"strconv"
 	"sort"
+	"strconv"
 	"strings"
 	"sync"
 	"testing"
@@ -65,7 +82,8 @@ var handShapes = []dbState{
 
 // Alphabet of batch operations, simplest first; all on the keys the DB states use. Prefixes of the
 // list are the deeper plans' alphabets: the first core4N symbols (every operation kind but LogData,
-// whole-range and partial range keys) are enumerated to depth 4, the first core3N to depth 3.
+// whole-range and partial range keys) go to depth 3 in the quick tier and to depth 4 in the thorough
+// tier; the whole alphabet goes to depth 2 (quick) / 3 (thorough).
 var batchAlpha = []hx.Op{
 	{K: "set", Key: "a"},
 	{K: "del", Key: "a"},
@@ -80,16 +98,12 @@ var batchAlpha = []hx.Op{
 	// --- end of core4 (10)
 	{K: "delrange", Key: "b", End: "c"},
 	{K: "merge", Key: "b@1"},
-	// --- end of core3 (12)
 	{K: "logdata"},
 	{K: "rkdel", Key: "a", End: "b"},
 	{K: "set", Key: "c"},
 }
 
-const (
-	core4N = 10
-	core3N = 12
-)
+const core4N = 10
 
 // dbCfg is hx's base configuration made cheap to open (a fresh DB is opened per case): 32 KiB
 // memtable (zeroing a 256 KiB arena per Open dominated the run time; batches stay far below the
@@ -108,10 +122,10 @@ type dbState struct {
 	Name string
 	Hist []hx.Op
 	// filled by prepare
-	model *hx.Model
-	sig   string // fine signature (visible state, SingleDelete class, LSM shape, memtable contents)
-	csig  string // coarse signature (visible state, LSM shape)
-	members int  // histories in this state's deduplication class
+	model   *hx.Model
+	sig     string // fine signature (visible state, SingleDelete class, LSM shape, memtable contents)
+	csig    string // coarse signature (visible state, LSM shape)
+	members int    // histories in this state's deduplication class
 }
 
 // Case is the replay artefact: one DB state (as the history that builds it) and one batch-op sequence.
@@ -990,7 +1004,7 @@ func TestCheck(t *testing.T) {
 		if !c.Thorough() {
 			plans = []plan{
 				{states: coarse, alpha: batchAlpha, minD: 0, maxD: 2},
-				{states: coarse, alpha: batchAlpha[:core3N], minD: 3, maxD: 3},
+				{states: coarse, alpha: batchAlpha[:core4N], minD: 3, maxD: 3},
 			}
 		} else {
 			c.Note("db_states_fine", stateNames(fine))
